@@ -68,10 +68,18 @@ def build_harness(timeout=900):
     q = subprocess.run(["cargo", "build", "--offline", "--quiet"], cwd=SIM_DIR, env=cargo_env(),
                        stdout=subprocess.PIPE, stderr=subprocess.STDOUT, text=True, timeout=timeout)
     SIM_BUILD_ERROR = None if q.returncode == 0 else q.stdout[-3000:]
+    # ... and once more as a release build sees the sources (debug assertions off, wrapping arithmetic)
+    global SIM_ND_OK
+    q2 = subprocess.run(["cargo", "build", "--offline", "--quiet", "--profile", "nodebug"], cwd=SIM_DIR, env=cargo_env(),
+                        stdout=subprocess.PIPE, stderr=subprocess.STDOUT, text=True, timeout=timeout)
+    SIM_ND_OK = q.returncode == 0 and q2.returncode == 0
     return time.time() - t0
 
 
-def run_harness(driver, scenarios, name, timeout=1200, env_extra=None, args=None):
+SIM_ND_OK = False
+
+
+def run_harness(driver, scenarios, name, timeout=1200, env_extra=None, args=None, nodebug=False):
     """Write scenarios (one JSON per line), run the driver, return events grouped by scenario id."""
     os.makedirs(WORK, exist_ok=True)
     script = os.path.join(WORK, name + ".script.ndjson")
@@ -88,6 +96,8 @@ def run_harness(driver, scenarios, name, timeout=1200, env_extra=None, args=None
     if driver in SIM_DRIVERS and SIM_BUILD_ERROR:
         raise SimUnavailable("the simulated build of the repository's sources failed:\n" + SIM_BUILD_ERROR)
     binary = SIM_BIN if driver in SIM_DRIVERS else HARNESS_BIN
+    if nodebug and driver in SIM_DRIVERS:
+        binary = SIM_BIN.replace("/debug/", "/nodebug/")
     try:
         p = subprocess.run([binary, driver, script, out] + (args or []), env=env, stdout=subprocess.PIPE,
                            stderr=subprocess.STDOUT, text=True, timeout=timeout, errors="replace")
